@@ -860,6 +860,36 @@ func c05BitIndex(w *World, r *Report, rule string) {
 			}
 			name := cc.Common().StaticCallee().Name()
 			sh := w.shapeOf(linTerms(args[1], nil))
+			// the index may be computed from a parameter of an extracted helper (groupStart): judge it with the
+			// parameter replaced by what each caller passes; every call site must give the right form
+			hasParam := false
+			for _, t := range addends(args[1]) {
+				if p, ok := stripConv(t.v).(*ssa.Parameter); ok && p.Parent() == cc.Parent() {
+					hasParam = true
+				}
+			}
+			if hasParam {
+				first := true
+				for _, caller := range fns {
+					for _, site := range calls(caller, true, func(c ssa.CallInstruction) bool { return c.Common().StaticCallee() == cc.Parent() }) {
+						bind := map[*ssa.Parameter]ssa.Value{}
+						for i, p := range cc.Parent().Params {
+							if i < len(site.Common().Args) {
+								bind[p] = site.Common().Args[i]
+							}
+						}
+						s2 := w.shapeOf(linTerms(args[1], bind))
+						if first {
+							sh, first = s2, false
+						} else {
+							sh.negOne = sh.negOne && s2.negOne
+							sh.negIPG = sh.negIPG && s2.negIPG
+							sh.negFDB = sh.negFDB && s2.negFDB
+							sh.negBPG = sh.negBPG && s2.negBPG
+						}
+					}
+				}
+			}
 			kind := "block"
 			if kinds["inode"] {
 				kind = "inode"
